@@ -229,29 +229,41 @@ def dispatcher(ctx: Ctx):
         for c in flow.calls_in(p.value, "reduce"):
             if not (c.args and flow.dump(c.args[0]) == "_solve_assignment"):
                 continue
-            n += 1
-            fleet_arg = c.args[1] if len(c.args) > 1 else None
-            d = flow.dump(fleet_arg)
-            # decide the branch by the truth table of the path's condition over n = len(fleet_ids)
-            term = {f"len({env}.fleet_ids)": "n"}
-            conds = [cnd for cnd in p.conds if isinstance(cnd.pol, bool) and f"{env}.fleet_ids" in flow.dump(cnd.test)]
-            def holds(g):
-                evl = cmp.Evaluator({k: g[v] for k, v in term.items()}, {})
-                return all(evl.truth(cnd.test) == cnd.pol for cnd in conds)
-            try:
-                taken = [g for g in cmp.assignments(["n"], range(0, 4)) if holds(g)]
-            except cmp.Unknown:
-                raise AnalysisError("Dispatcher.generate_instructions: fleet branch condition not a comparison on len(fleet_ids)")
-            if d == "(None,)":
-                ok = all(g["n"] == 0 for g in taken) and bool(taken)
-                ctx.check(ok, "D2", "CMP.fleet-fold", "the unfiltered (None,) assignment is solved only when no fleet is configured", gi, p.end,
-                          why_bad=f"(None,) is used for fleet counts {[g['n'] for g in taken]}", construct="generate_instructions:none-branch")
-            else:
-                ok = all(g["n"] >= 1 for g in taken) and f"{env}.fleet_ids" in d
-                ctx.check(ok, "D2", "CMP.fleet-fold", "with fleets configured, _solve_assignment is folded over the configured fleet ids", gi, p.end,
-                          why_bad=f"fold runs over {d[:100]} for fleet counts {[g['n'] for g in taken]}", construct="generate_instructions:fleet-branch")
-            covered = {g["n"] for g in taken}
-            ctx.extra.setdefault("fleet_branch_cover", []).append(sorted(covered))
+            fleet_arg0 = c.args[1] if len(c.args) > 1 else None
+            # the iterable may itself be a two-way choice (conditional expression): each arm is a branch with the arm's condition
+            arms = []
+
+            def _arms(e, extra):
+                e = flow.core(e) if e is not None else e
+                if isinstance(e, ast.IfExp):
+                    _arms(e.body, extra + [(e.test, True)])
+                    _arms(e.orelse, extra + [(e.test, False)])
+                else:
+                    arms.append((e, extra))
+            _arms(fleet_arg0, [])
+            for fleet_arg, extra in arms:
+                n += 1
+                d = flow.dump(fleet_arg)
+                # decide the branch by the truth table of the path's condition over n = len(fleet_ids)
+                term = {f"len({env}.fleet_ids)": "n"}
+                conds = [(cnd.test, cnd.pol) for cnd in p.conds if isinstance(cnd.pol, bool) and f"{env}.fleet_ids" in flow.dump(cnd.test)] + [x for x in extra if f"{env}.fleet_ids" in flow.dump(x[0])]
+                def holds(g):
+                    evl = cmp.Evaluator({k: g[v] for k, v in term.items()}, {})
+                    return all(evl.truth(t_) == pol_ for t_, pol_ in conds)
+                try:
+                    taken = [g for g in cmp.assignments(["n"], range(0, 4)) if holds(g)]
+                except cmp.Unknown:
+                    raise AnalysisError("Dispatcher.generate_instructions: fleet branch condition not a comparison on len(fleet_ids)")
+                if d == "(None,)":
+                    ok = all(g["n"] == 0 for g in taken) and bool(taken)
+                    ctx.check(ok, "D2", "CMP.fleet-fold", "the unfiltered (None,) assignment is solved only when no fleet is configured", gi, p.end,
+                              why_bad=f"(None,) is used for fleet counts {[g['n'] for g in taken]}", construct="generate_instructions:none-branch")
+                else:
+                    ok = all(g["n"] >= 1 for g in taken) and f"{env}.fleet_ids" in d
+                    ctx.check(ok, "D2", "CMP.fleet-fold", "with fleets configured, _solve_assignment is folded over the configured fleet ids", gi, p.end,
+                              why_bad=f"fold runs over {d[:100]} for fleet counts {[g['n'] for g in taken]}", construct="generate_instructions:fleet-branch")
+                covered = {g["n"] for g in taken}
+                ctx.extra.setdefault("fleet_branch_cover", []).append(sorted(covered))
     ctx.require(n >= 2, "Dispatcher.generate_instructions: expected two fleet branches folding _solve_assignment")
 
 
